@@ -118,10 +118,16 @@ PROPS["C11"] = dict(
                 "from the same address), ServerTls.serviceCxes (open sockets stay tracked, closed ones are dropped), RemoterTls/ClientTls.handshake (aborted => closed), "
                 "Client/ClientTls.reopen (earlier socket closed, exactly one new). Bounded in the number of connections, symbolic otherwise.")
 PROPS["C12"] = dict(
-    contracts=["contracts.tcp", "contracts.c08_timers"], harness="harness.tcp_native:C12", level="other", trusted_base=TCP_EXT,
-    explanation="Server.serviceAxes PROVED (bounded in #accepted) to build Remoters whose tymeout and tymer duration equal the server's tymeout; Tymer.restart/expired PROVED "
-                "(C08). The http-level close decision (serviceConnects) is covered by the http contracts when present; 'traffic in every window keeps the connection' "
-                "relies on refresh() being a lossless restart: see DESIGN.md C12 note.")
+    contracts=["contracts.tcp", "contracts.c08_timers", "contracts.http_server"], harness="harness.combo:C12", level="other", trusted_base=TCP_EXT,
+    assumptions=["the whole-history statement (idle for tymeout => closed at the next serviceConnects; traffic in every window => never closed for idleness) is the "
+                 "composition, on paper, of four proved per-call contracts: serviceAxes gives the Remoter the server's tymeout; Remoter.send/receive restart the idle "
+                 "timer at the current tyme iff bytes moved; Tymer.expired <=> tyme >= start + duration; serviceConnects closes iff cutoff or expired",
+                 "tcp Server.serviceConnects (accepting) is summarised as a no-op inside the http serviceConnects contract"],
+    explanation="PROVED per call: Server.serviceAxes builds Remoters whose tymeout and tymer duration equal the server's tymeout (bounded in #accepted); Remoter/RemoterTls.send "
+                "and .receive restart the idle timer at the current tyme with unchanged duration exactly when bytes moved on a refreshable connection and leave it alone "
+                "otherwise; Tymer.start/restart/expired (C08); http Server.serviceConnects and BareServer.serviceConnects (<= 2 connections, symbolic flags) close a "
+                "connection iff it is cut off or (tymeout > 0 and its timer expired), exactly once, removing requestant/responder/steward and flushing a pending response "
+                "first, and keep every other connection with a requestant bound to its receive buffer. Native runs in virtual tyme (harness) are the bounded tier.")
 
 PROPS["C04"] = dict(
     contracts=["contracts.sched_bounded", "contracts.sched_inv"], harness="harness.sched_props:C04", level="other",
@@ -176,9 +182,22 @@ PROPS["C14"] = dict(
     explanation="Bounded stand-in only (DESIGN.md C14): random methods, unicode/reserved-character paths, query dicts, header sets, raw/JSON/form bodies built by the real Requester and "
                 "recovered by the real Requestant and buildEnviron.")
 PROPS["C18"] = dict(
-    contracts=[], harness="harness.http_native:C18", level="exploration", technique="bounded runtime contract on the real http.Server over fake sockets, independent strict response-stream parser as oracle -- stand-in",
-    explanation="Bounded stand-in: WSGI apps (status, headers with/without Content-Length exact or short, body pieces incl. empty, list or generator) x request sequences "
-                "(HTTP/1.0/1.1, keep-alive/close, pipelined or sequential); the byte stream written to the socket is parsed by an independent strict parser: framing, order, body clamp, close decision.")
+    contracts=["contracts.http_responder"], harness="harness.http_native:C18", level="other",
+    technique="contract-based deductive verification (pyvc) of Responder.write/start/reset/build and Server.serviceReps; bounded runtime contract on the real http.Server "
+              "over fake sockets with an independent strict response-stream parser as oracle for whole connections",
+    trusted_base=["httping.packChunk(msg) == HEX(len msg) CRLF msg CRLF (HEX uninterpreted; the shape is checked natively on sample messages); Hict as a case-insensitive "
+                  "mapping model restricted to the header names the functions ask for; int(str) uninterpreted; incomer.tx appends to a ghost wire; "
+                  "httpDate1123 / packHeader / str.encode summarised as arbitrary values"],
+    assumptions=["per-call contracts; 'responses come back in request order and each parses to exactly the application's output' over a whole connection is the bounded tier",
+                 "serviceReps: <= 2 connections, Responder.service summarised as 'may or may not end the response'"],
+    explanation="PROVED per call (symbolic flags, lengths, message bytes): Responder.write refuses before start_response, sends the head exactly once and first, sends exactly "
+                "one chunk per piece when chunked, and with a declared Content-Length sends exactly the first min(len, L - size) bytes so that size never exceeds L; "
+                "Responder.start takes the declared length and switches chunking off with it, refuses a second start; Responder.reset clears every per-response field and takes "
+                "the new request's chunkable; Responder.build chunks iff chunkable and no other Transfer-Encoding, and announces it; Server.serviceReps (<= 2 connections) closes "
+                "a connection iff its responder was closed or its response ended for a non-persistent request with everything flushed, renews the parser of a finished "
+                "persistent request, services an unfinished responder exactly once. BOUNDED: WSGI apps x request sequences (HTTP/1.0/1.1, keep-alive/close, pipelined) with the "
+                "socket byte stream parsed by an independent strict parser: framing, order, body clamp, close decision. The HTTP/1.0 keep-alive response without a length is a "
+                "recorded finding (not self-delimiting on an open connection).")
 PROPS["C19"] = dict(
     contracts=["contracts.http_client"], harness="harness.http_native:C19", level="proof",
     trusted_base=["Requester.rebuild/build, Respondent.parse/dictify/reinit, tcp connector tx/close/reopen: EXT summaries (arbitrary result or exception) -- the "
@@ -223,10 +242,22 @@ PROPS["C26"] = dict(
                 "nabSextets and the bytes flavour -- exhaustive small domain plus structured large values in harness/c26.py.")
 
 PROPS["C25"] = dict(
-    contracts=[], harness="harness.c25", level="exploration", technique="bounded runtime contract on the real Boxer.run / Boxer.end over random box forests -- stand-in for the planned exen/run contracts",
-    explanation="Bounded stand-in: random box forests (depth <= 3), random first box, up to 4 transitions per run fired by a random box of the active pile towards a random destination "
-                "(sibling, cousin, ancestor, descendant, self, other tree), with and without failing preconditions, then end(); logged act order compared with the prescribed one "
-                "(exited bottom-up, kept re-exited bottom-up, kept re-entered top-down, entered top-down, declaration order within a box).")
+    contracts=["contracts.c25_boxing"], harness="harness.c25", level="other",
+    technique="contract-based deductive verification (pyvc, loops cut by invariants, piles of any depth) of Boxer.exen/exdo/rexdo/rendo/endo/predo/end; "
+              "bounded runtime contract on the real Boxer.run over random box forests for the transition block",
+    trusted_base=["a Box is known by identity (uninterpreted sort); its nabe methods (exdo, rexdo, rendo, endo, predo) are EXT: they append to a ghost call log, "
+                  "predo returns an arbitrary but fixed bool per box",
+                  "list slicing / reversed() on window sequences (pyvc/builtins.py wseq_slice, wseq_reversed)"],
+    assumptions=["W2 (precondition of exen): two piles that agree on their whole common length have the same length -- a pile ends at a leaf (Box._trace); checked natively "
+                 "on every pair of boxes of every random forest of the harness, not proved from Box._trace",
+                 "the transition block inside the generator Boxer.run (call order exen -> predo -> exdo -> rexdo -> rendo -> endo, nothing when predo fails) is NOT under "
+                 "contract: bounded tier only"],
+    explanation="PROVED for piles of any depth: Boxer.exen never falls off its loop and splits at the FIRST index that is far itself or where the piles differ; the boxes "
+                "above it are common to both piles and do not contain far; exdos / rexdos are the boxes left / kept in bottom-up order, endos / rendos the boxes arrived at / "
+                "kept in top-down order (exact element-wise characterisation of all four lists); exdo/rexdo/rendo/endo call exactly the matching method once per list "
+                "element in list order and nothing else; predo asks top-down, stops at the first unmet box and returns whether all are met; end exits every box of the "
+                "active pile exactly once bottom-up. BOUNDED: Boxer.run on random forests (depth <= 3, up to 4 transitions, failing preconditions), logged act order "
+                "compared with the prescribed one.")
 
 MEMO_NOTE = "Native bounded harness (harness/memo_native.py): the real Memoer with scripted send/receive. "
 PROPS["C20"] = dict(
